@@ -480,6 +480,56 @@ func FormField(body string, name string) (string, bool) {
 	return "", false
 }
 
+// JSONDoc builds the real JSON text of the document the model describes (draws <tag>.tag/.bool/.int/.str,
+// choice <tag>.len, elements <tag>.<k>).
+func JSONDoc(tag string) []byte {
+	b, _ := json.Marshal(jsonValue(tag, 0))
+	return b
+}
+
+func rawDraw(nm string) (string, bool) { v, ok := cur.Draws[nm]; return v, ok }
+
+func jsonValue(tag string, depth int) any {
+	kind := int64(0)
+	if v, ok := rawDraw(tag + ".tag"); ok && strings.HasPrefix(v, "i:") {
+		fmt.Sscanf(v[2:], "%d", &kind)
+	}
+	switch kind {
+	case 1:
+		v, _ := rawDraw(tag + ".bool")
+		return v == "t"
+	case 2:
+		var n int64
+		if v, ok := rawDraw(tag + ".int"); ok && strings.HasPrefix(v, "i:") {
+			fmt.Sscanf(v[2:], "%d", &n)
+		}
+		return n
+	case 3:
+		if v, ok := rawDraw(tag + ".str"); ok && strings.HasPrefix(v, "s:") {
+			b, _ := hex.DecodeString(v[2:])
+			return string(b)
+		}
+		return ""
+	case 4:
+		n := 0
+		for _, c := range cur.Choices {
+			if c.Tag == tag+".len" {
+				n = c.V
+			}
+		}
+		out := make([]any, n)
+		for k := range out {
+			if depth < 4 {
+				out[k] = jsonValue(fmt.Sprintf("%s.%d", tag, k), depth+1)
+			}
+		}
+		return out
+	case 5:
+		return map[string]any{}
+	}
+	return nil
+}
+
 func Debugf(format string, args ...any) { res.Notes = append(res.Notes, fmt.Sprintf(format, args...)) }
 
 // ---- scripted HTTP transport (plain Go in both variants: executed symbolically and natively) ----
